@@ -386,9 +386,17 @@ def fit(v, t):
     if tlo <= lo and hi <= thi: return v
     if v.is_const() or v.single() is not None:
         return clean(pointwise(lambda x: wrap(x, bits, signed), v))
-    if not signed and v.bitmask() is not None:
+    if v.bitmask() is not None:
         m = (1 << bits) - 1
-        return clean(Val({l: [x & m for x in t2] for l, t2 in v.tabs.items()}, v.off & m))
+        r = clean(Val({l: [x & m for x in t2] for l, t2 in v.tabs.items()}, v.off & m))
+        if not signed: return r
+        # the summand that owns the sign bit takes the -2^bits
+        sb = 1 << (bits - 1)
+        if r.off & sb: return Val(r.tabs, r.off - (1 << bits))
+        tabs = {l: [x - (1 << bits) if x & sb else x for x in t2] for l, t2 in r.tabs.items()}
+        return clean(Val(tabs, r.off))
+    if signed and tlo <= lo - (1 << bits) and hi - (1 << bits) <= thi and lo > thi:
+        return Val(v.tabs, v.off - (1 << bits))
     raise Unmodelled('a multi-variable value of type %s may wrap: range [%d, %d]' % (t, lo, hi))
 
 
@@ -433,7 +441,7 @@ class Interp:
     def __init__(self, db, space, nbytes=8, signed_char_reads=True):
         self.db = db; self.sp = space; self.findings = []; self.steps = 0
         self.avail = space.byname.get('avail')
-        self.reads = collections.Counter()
+        self.reads = collections.Counter(); self.intercept = {}; self.ptr_compare = None
 
     # ---- helpers
     def byte(self, k, t='unsigned char'):
@@ -468,7 +476,10 @@ class Interp:
 
     def compare(self, op, a, b, st):
         if isinstance(a, Ptr) and isinstance(b, Ptr):
-            if a.base != b.base: raise Unmodelled('comparison of pointers %r and %r' % (a, b))
+            if a.base != b.base:
+                if self.ptr_compare is not None:
+                    yield from self.ptr_compare(self, op, a, b, st); return
+                raise Unmodelled('comparison of pointers %r and %r' % (a, b))
             yield {'<': a.off < b.off, '>': a.off > b.off, '<=': a.off <= b.off, '>=': a.off >= b.off, '==': a.off == b.off, '!=': a.off != b.off}[op], st; return
         if not isinstance(a, Val) or not isinstance(b, Val): raise Unmodelled('comparison of %r and %r' % (a, b))
         d = binop('-', a, b)
@@ -513,7 +524,7 @@ class Interp:
             if ck == 'IntegralToBoolean':
                 for b, s2 in self.truth(v, s): yield Val.const(int(b)), s2
             elif ck == 'ArrayToPointerDecay':
-                yield (Ptr(('arr', e['e'].get('d')), 0) if isinstance(v, Agg) else v), s
+                yield (Ptr(('agg', v), 0) if isinstance(v, Agg) else v), s
             elif isinstance(v, Val) and ck in ('IntegralCast', 'NoOp', 'LValueToRValue', 'ConstructorConversion', 'BooleanToSignedIntegral'):
                 yield fit(v, e.get('t')), s
             else:
@@ -551,9 +562,11 @@ class Interp:
             if p.base == 'cur':
                 self.need(st, p.off, e.get('loc'))
                 yield self.byte(p.off, e.get('t')), st; return
-            if isinstance(p.base, tuple) and p.base[0] == 'arr':
-                a = st.env[p.base[1]]
-                yield a.items[p.off], st; return
+            if isinstance(p.base, tuple) and p.base[0] == 'agg':
+                if not 0 <= p.off < len(p.base[1].items):
+                    self.findings.append(('index', 'element %d of a %d element list is read' % (p.off, len(p.base[1].items)), e.get('loc')))
+                    raise Unmodelled('out of bounds read of a list')
+                yield p.base[1].items[p.off], st; return
         raise Unmodelled('dereference of %r' % (p,))
 
     def e_bin(self, e, st):
@@ -664,13 +677,21 @@ class Interp:
             yield from self.call(e, cq, cn, ov, av, s)
 
     def call(self, e, cq, cn, ov, av, st):
+        h = self.intercept.get(cq) or self.intercept.get(cn)
+        if h is not None:
+            r = h(self, e, ov, av, st)
+            if r is not None:
+                yield from r; return
+        if isinstance(ov, Agg) and cn in ('size', 'begin', 'end'):
+            yield (Val.const(len(ov.items)) if cn == 'size' else Ptr(('agg', ov), 0 if cn == 'begin' else len(ov.items))), st; return
         if isinstance(ov, Opaque) and ov.tag == 'input':
             yield from self.input_call(e, cn, av, st); return
         if isinstance(ov, Opaque) and ov.tag == 'string':
             if e.get('opc') == '+=' or cn == 'push_back':
                 st.eff = st.eff + (('append', [av[0]]),); yield ov, st; return
+            if cn == 'append' and len(av) == 2 and isinstance(av[0], Agg): av = [Ptr(('agg', av[0]), 0), av[1]]
             if cn == 'append' and len(av) == 2 and isinstance(av[0], Ptr) and isinstance(av[0].base, tuple) and isinstance(av[1], Val) and av[1].is_const():
-                arr = st.env[av[0].base[1]].items
+                arr = av[0].base[1].items
                 n = av[1].off
                 if av[0].off != 0 or n > len(arr): self.findings.append(('append', 'append( tmp, %d ) reads beyond the %d prepared bytes' % (n, len(arr)), e.get('loc')))
                 st.eff = st.eff + (('append', list(arr[:n])),); yield ov, st; return
@@ -714,12 +735,39 @@ class Interp:
             if isinstance(v, Val): v = fit(v, p.get('t'))
             st.env[p['id']] = v
         prev = st.env.get('this'); st.env['this'] = this
-        for kind, val, s in self.run(fn['body'], st):
+        outs = list(self.run(fn['body'], st))
+        merged = self.merge(outs, st)
+        for kind, val, s in (merged if merged is not None else outs):
             s.env['this'] = prev
             if kind == 'return': yield val, s
             elif kind == 'fall': yield Opaque('void'), s
             elif kind in ('terminate', 'throw'): yield Abort(kind, val), s
             else: raise Unmodelled('%s leaves the inlined function %s' % (kind, fn['q']))
+
+    def merge(self, outs, st0):
+        """the returning paths of a call without effects whose results depend on one variable are joined again: the value
+        becomes one table, the path condition the union (keeps digit loops linear)"""
+        rets = [o for o in outs if o[0] == 'return']
+        if len(rets) < 2 or any(not isinstance(v, Val) or len(v.tabs) > 1 or s.eff != st0.eff for k, v, s in rets): return None
+        ls = set(l for k, v, s in rets for l in v.tabs)
+        if len(ls) != 1: return None
+        l = ls.pop()
+        tab = [0] * self.sp.vars[l].size; seen = (); cond = None
+        for k, v, s in rets:
+            xs = self.sp.project(s.cond, l)
+            if isect(xs, seen): return None
+            seen = iunion(seen, xs)
+            t = v.table(l) if v.tabs else None
+            for a, b in xs:
+                for x in range(a, b + 1): tab[x] = t[x] if t is not None else v.off
+            cond = self.sp.OR(cond, s.cond)
+        # sound only if the paths differ in nothing but the constraint on that variable
+        chk = None
+        for k, v, s in rets:
+            chk = self.sp.OR(chk, self.sp.AND(cond, self.sp.restrict(l, self.sp.project(s.cond, l))))
+            if self.sp.AND(cond, self.sp.restrict(l, self.sp.project(s.cond, l))) != s.cond: return None
+        s0 = rets[0][2]; s0.cond = cond
+        return [('return', clean(Val({l: tab})), s0)] + [o for o in outs if o[0] != 'return']
 
     # ---- statements: generators of (kind, value, state); kind in fall/return/break/continue
     def run(self, s, st):
